@@ -1,7 +1,7 @@
 """KNOWN FINDING (C09): a suspended instrumented generator leaks its call-path context to its driver, and
 finalising it after the overlay ended re-installs the dead overlay's handlers."""
 import sys
-sys.path.insert(0, "/repo")
+sys.path.insert(0, __import__("os").environ.get("PVC_REPO", "/repo"))
 from ptera import tooled, probing
 from ptera.overlay import HandlerCollection
 
